@@ -11,6 +11,7 @@ INVARIANT ScalarsGiveF
 INVARIANT CallsPlusKept
 INVARIANT OnlyPastIsKept
 INVARIANT MechanismIsLaw
+INVARIANT OptionsAreNotInputs
 INVARIANT SpellingIsNotKey
 INVARIANT CellsJoinIsLaw
 INVARIANT CacheJoinIsLaw
